@@ -143,6 +143,10 @@ func (eval Evaluator) Relinearize(ctIn *Ciphertext, opOut *Ciphertext) (err erro
 	ctTmp.Value = []ring.Poly{eval.BuffQP[0].Q, eval.BuffQP[1].Q}
 	ctTmp.MetaData = ctIn.MetaData
 
+	if opOut.Degree() < 1 {
+		opOut.Resize(1, opOut.Level())
+	}
+
 	eval.GadgetProduct(level, ctIn.Value[2], &rlk.GadgetCiphertext, ctTmp)
 	ringQ.Add(ctIn.Value[0], ctTmp.Value[0], opOut.Value[0])
 	ringQ.Add(ctIn.Value[1], ctTmp.Value[1], opOut.Value[1])
